@@ -123,3 +123,27 @@ theorem chain_txid_increasing (a b : Tx) (rest : List Tx) (h : chainOK (a :: b :
   omega
 
 end LiteFSVerif.Spec
+
+namespace LiteFSVerif.Spec
+
+/-- applying the same file twice is the same as applying it once (restart re-applies the newest file) -/
+theorem apply_idempotent (img : Img) (tx : Tx) : apply (apply img tx) tx = apply img tx := by
+  apply List.ext_getElem
+  · simp [apply]
+  · intro i h1 h2
+    have hi : i < tx.commit := by simpa [apply] using h2
+    have a := apply_getD (apply img tx) tx i hi
+    have b := apply_getD img tx i hi
+    rw [List.getD_eq_getElem?_getD, List.getElem?_eq_getElem h1] at a
+    rw [List.getD_eq_getElem?_getD, List.getElem?_eq_getElem h2] at b
+    simp only [Option.getD_some] at a b
+    rw [a, b]
+    cases hl : tx.pages.lookup (i + 1) with
+    | some c => simp
+    | none =>
+      simp only [Option.getD_none]
+      have := apply_getD img tx i hi
+      rw [hl] at this
+      simpa using this
+
+end LiteFSVerif.Spec
